@@ -9,7 +9,7 @@ NUL = B("null")
 WORDS = ["range", "token", "label", "content", "version", "language", "pattern", "scheme", "folder", "symbol", "value", "detail", "selection", "document", "workspace", "provider", "support", "options", "offset", "severity", "message", "source", "target", "origin", "context", "trigger", "filter", "format", "encoding", "position", "identifier", "resolve", "dynamic", "registration", "capability", "snippet", "preview", "annotation", "metadata", "revision"]
 KW = ["class", "from", "import", "lambda", "global", "pass", "with", "yield", "async", "in", "is", "not", "def", "del", "try"]
 MIXINS = ["WorkDoneProgressParams", "PartialResultParams", "StaticRegistrationOptions", "TextDocumentPositionParams"]
-OPS = ("E1", "E2", "E3", "E4", "E5", "E6", "E7", "E8", "E9", "E10", "E11")
+OPS = ("E1", "E2", "E3", "E4", "E5", "E6", "E7", "E8", "E9", "E10", "E11", "E12")
 
 
 def camel(ws):
@@ -280,7 +280,7 @@ class Evo:
             e["values"].append(v)
             self.log.append("E4 value %s.%s" % (e["name"], vn))
 
-    def E5(self, with_typename=None, kind=None, dollar=None, params_last_new=False):
+    def E5(self, with_typename=None, kind=None, dollar=None, params_last_new=False, enum_result=False):
         r = self.r
         prefix = "$/verif" if (dollar if dollar is not None else r.random() < 0.2) else "verif/"
         m = prefix + camel([r.choice(WORDS), r.choice(WORDS)]) + str(self.n)
@@ -295,6 +295,10 @@ class Evo:
         tn = (r.random() < 0.5) if with_typename is None else with_typename
         if (kind or ("request" if r.random() < 0.6 else "notification")) == "request":
             res = r.choice([NUL, R(r.choice(self.structs())), {"kind": "array", "element": R(r.choice(self.structs()))}, {"kind": "or", "items": [R(r.choice(self.structs())), NUL]}])
+            if enum_result or r.random() < 0.15:
+                # an enumeration directly as the result (no enclosing structure)
+                en = R(r.choice(self.closed_enums()))
+                res = r.choice([{"kind": "or", "items": [en, NUL]}, {"kind": "array", "element": en}, {"kind": "or", "items": [{"kind": "array", "element": en}, NUL]}])
             q = {"method": m, "messageDirection": r.choice(["clientToServer", "serverToClient", "both"]), "result": res}
             if r.random() < 0.8 or params_last_new:
                 q["params"] = par
@@ -407,6 +411,26 @@ class Evo:
         self.touched.add(nm)
         self.log.append("E11 %s anonymous literals with special properties" % nm)
 
+    def E12(self):
+        """properties that reference OPEN enumerations (incl. the integer-based ones no property uses
+        today) directly and as array elements.  Parsing such positions needs hand-written hooks, so
+        the evolved package is judged on its static image only (C04/C09, Rust, .NET)."""
+        nm = self.name(True)
+        opens = [e for e in self.d["enumerations"] if e.get("supportsCustomValues")]
+        props = []
+        for e in opens:
+            import re as _re
+
+            # regular camelCase (LSP property names never carry runs of capitals): LSPErrorCodes -> lspErrorCodes
+            m_ = _re.match(r"([A-Z]+)([A-Z][a-z].*)$", e["name"])
+            base = (m_.group(1).lower() + m_.group(2)) if m_ else e["name"][0].lower() + e["name"][1:]
+            props.append({"name": base + "Value", "type": R(e["name"])})
+            props.append({"name": base + "List", "type": {"kind": "array", "element": R(e["name"])}, "optional": True})
+        self.d["structures"].append({"name": nm, "properties": props})
+        self.new_structs.append(nm)
+        self.log.append("E12 %s references %d open enumerations" % (nm, len(opens)))
+        self.static_only = True
+
     def E6(self, both=False):
         sec = self.r.choice(["structures", "enumerations", "typeAliases", "requests", "notifications"])
         node = self.r.choice(self.d[sec])
@@ -449,5 +473,5 @@ def evolve(doc, rng, n_ops=None, force=None):
         else:
             getattr(e, op)()
             e.ops_used.append(op)
-    info = {"log": e.log, "touched": sorted(e.touched), "new_structs": e.new_structs, "new_enums": e.new_enums, "new_methods": e.new_methods, "ops": e.ops_used}
+    info = {"static_only": getattr(e, "static_only", False), "log": e.log, "touched": sorted(e.touched), "new_structs": e.new_structs, "new_enums": e.new_enums, "new_methods": e.new_methods, "ops": e.ops_used}
     return e.d, info
